@@ -47,3 +47,8 @@ claim("C15", "PBT: exhaustive enumeration of a finite representative domain (all
       "Every run enumerates all ordered pairs and same-kind triples of a boundary-value domain over the 12 Go numeric types and strings, then searches random typed pairs/triples; oracle is exact rational comparison; exhaustive only over that finite domain.",
       "Float-vs-string pairs with |float| >= 10^6 are judged by the laws only (decimal text ambiguous); |v| <= 2^53.",
       "DESIGN.md 4/C15")
+
+claim("C16", "PBT (rapid): template grammar with decoys x hostile argument alphabet; oracle = library parser's canonical AST text of the sanitized query vs. the template with harness-rendered literals, echo round-trip through New/Exec, error cases",
+      "Generated-input search over templates (1-4 placeholders, decoys in strings/identifiers/comments) and arguments over a quote-hostile alphabet; shape equality is judged by the library's own parser, echo by execution; held on everything explored.",
+      "Placeholders are separated from neighbouring tokens; nested block comments, backslashes and CR inside comments are not generated; []byte and time.Time arguments are outside the statement.",
+      "DESIGN.md 4/C16")
